@@ -511,6 +511,41 @@ func (x *c12) caseSyncResponse() {
 	x.rec.SetSample(map[string]any{"kind": "sync-response"})
 }
 
+// caseIgnoreResult: a fire-and-forget transaction (ignoreResult) follows the same schedule, stops at
+// the first matching response and leaves the table empty, too.
+func (x *c12) caseIgnoreResult() {
+	sends, fail := schedule(x.rto)
+	msg, tid := x.request()
+	answerAt := x.rng.Intn(maxRtx + 1) // == maxRtx: never answered
+	count := 0
+	x.srv.SetHandler(func(s *sim.ScriptedServer, from *net.UDPAddr, ev sim.SrvEvent) {
+		if ev.Msg == nil || ev.Msg.TID != tid {
+			return
+		}
+		if count == answerAt {
+			s.Send(from, response(tid, "answer"), 0)
+		}
+		count++
+	})
+	t0 := time.Now()
+	if _, err := x.rc.Client.PerformTransaction(msg, x.srv.Addr, true); err != nil {
+		x.rec.Violate("tr-unexpected-result", "ignore-result", "fire-and-forget PerformTransaction returned %v", err)
+	}
+	if d := time.Since(t0); d != 0 {
+		x.rec.Violate("tr-return-instant", "ignore-result", "fire-and-forget PerformTransaction returned after %v", d)
+	}
+	time.Sleep(fail + 5*time.Second)
+	want := answerAt + 1
+	if answerAt >= maxRtx {
+		want = maxRtx
+	}
+	x.checkSends(x.arrivals(tid, t0), want, fmt.Sprintf("fire-and-forget answered at transmission %d rto=%v", answerAt, x.rto))
+	_ = sends
+	x.checkTable("ignore-result")
+	x.rec.FP("ignore-result/answer-at=%d/rto=%s", answerAt, x.rto)
+	x.rec.SetSample(map[string]any{"kind": "ignore-result", "answer_at": answerAt, "rto": x.rto.String()})
+}
+
 var c12RTOs = []time.Duration{time.Millisecond, 100 * time.Millisecond, 200 * time.Millisecond, 800 * time.Millisecond, 1600 * time.Millisecond, 37 * time.Millisecond, 1100 * time.Millisecond}
 
 func runC12(t *testing.T, rng *rand.Rand, rec *sim.Rec, tier string, caseNo int) {
@@ -535,7 +570,9 @@ func runC12(t *testing.T, rng *rand.Rand, rec *sim.Rec, tier string, caseNo int)
 	}
 	x := newC12(t, rng, rec, rto)
 	defer x.close()
-	switch (caseNo - lossCases) % 6 {
+	switch (caseNo - lossCases) % 7 {
+	case 6:
+		x.caseIgnoreResult()
 	case 0:
 		x.caseNoise()
 	case 1:
